@@ -1084,6 +1084,11 @@ func callBuiltin(caller *frame, callpos token.Pos, fn *ssa.Builtin, args []value
 		case []value:
 			return len(x)
 		case map[value]value:
+			if x != nil {
+				if pad, ok := mapPad[mapID(x)]; ok {
+					return sym{mkBV("bvadd", mkConst(64, uint64(mapLen(x))), pad), types.Int}
+				}
+			}
 			return mapLen(x)
 		case *hashmap:
 			return x.len()
@@ -1170,6 +1175,11 @@ func callBuiltin(caller *frame, callpos token.Pos, fn *ssa.Builtin, args []value
 func rangeIter(x value, t types.Type) iter {
 	switch x := x.(type) {
 	case map[value]value:
+		if x != nil {
+			if _, ok := mapPad[mapID(x)]; ok {
+				panic(pathAbort{"unsupported: range over a map with abstract entries (vMapPad)"})
+			}
+		}
 		return &mapIter{m: x, entries: mapEntries(x)}
 	case *hashmap:
 		return &hashmapIter{entries: x.orderedEntries()}
